@@ -3,5 +3,5 @@
 cd "$(dirname "$0")/.."
 ls seeded | while read n; do
   id=$(python3 -c "import json;m=json.load(open('seeded/$n/meta.json'));d=[k for k,v in (m.get('detected_by') or {}).items() if v];print('' if (m.get('obsolete') or m.get('outside_property')) else (m['property'] if (m['property'] in d or not d) else d[0]))")
-  [ -n "$id" ] && echo "$n $id"
-done | xargs -P 3 -L 1 sh -c 'python3 tools/seed_recheck.py $0 $1 2>&1 | head -3'
+  [ -n "$id" ] && ! grep -qx "$n" "${SWEEP_SKIP:-/dev/null}" && echo "$n $id"
+done | xargs -P ${SWEEP_PAR:-3} -L 1 sh -c 'python3 tools/seed_recheck.py $0 $1 2>&1 | head -3'
